@@ -6201,3 +6201,13 @@ if __name__ == "__main__":
     import doctest
 
     doctest.testmod()
+
+
+# Verification hooks: a no-op unless the environment variable PARTITURA_VERIF=1
+# is set when partitura is imported (see partitura/utils/_verif.py).
+import os as _os
+
+if _os.environ.get("PARTITURA_VERIF") == "1":
+    from partitura.utils import _verif
+
+    _verif.install(globals())
